@@ -1,0 +1,12 @@
+"""
+    Verification hooks. Everything in here is a no-op unless the environment
+    variable ``PUAN_VERIF`` is set to ``1`` when puan is imported.
+"""
+import os
+
+ENABLED = os.environ.get("PUAN_VERIF") == "1"
+events = []
+
+def emit(kind, **fields):
+    if ENABLED:
+        events.append((kind, fields))
